@@ -23,7 +23,7 @@ LEVEL_RULE = (
 EXHAUSTIVE_SUBDOMAINS = ["every NL band 1..59 x hemisphere x parity x {airborne,surface} (directed mid-band positions)"]
 ASSUMPTIONS = ["reference latitude clamped to [-90,90], reference longitude wrapped to [-180,180)",
                "box shrunk by two quantisation steps so that float round-off cannot move a reference outside it"]
-REQUIRED = ["airborne", "surface", "parity0", "parity1", "ni_le_0", "ni_gt_0", "ref_across_equator", "ref_across_antimeridian",
+REQUIRED = ["airborne", "decoded_latitude_exactly_87", "surface", "parity0", "parity1", "ni_le_0", "ni_gt_0", "ref_across_equator", "ref_across_antimeridian",
             "ref_across_greenwich", "corner", "routing_checked", "ref_lat_exactly_zero", "ref_lon_exactly_zero", "ref_lon_not_folded", "ref_lon_0_360_convention", "ref_a_hair_inside_box_edge", "reference_is_previous_fix"] + \
            ["band%d_%s" % (nl, s) for nl in range(1, 60) for s in ("air", "sfc")]
 
@@ -42,9 +42,11 @@ def m_ref(ctx, case):
         msg = msg.lower()
     slat, slon, dlat, dlon = cpr.steps(rlat, i, sfc)
     nl = cpr.NL(rlat)
-    if cpr.near_transition(rlat):
+    if cpr.near_transition(rlat) and abs(rlat) != 87.0:
         ctx.amb()
         return
+    if abs(rlat) == 87.0:
+        ctx.hit("decoded_latitude_exactly_87")    # not ambiguous: DO-260B defines NL(+-87) = 2 explicitly
     key_w = "cprNL-window-above-87" if 87.0 < abs(rlat) <= WINDOW_HI else None
     results = []
     if case.get("edge"):
@@ -182,7 +184,8 @@ def cases(ctx):
                     i += 1
     # directed: equator / greenwich / antimeridian crossings with corner references
     for lat0, lon0 in ((0.01, 10.0), (-0.01, -20.0), (30.0, 0.01), (-30.0, -0.01), (45.0, 179.99), (-45.0, -179.99),
-                       (0.001, 179.999), (-0.001, 0.001), (89.99, 5.0), (-89.99, -5.0), (86.9, 100.0), (87.2, -100.0)):
+                       (0.001, 179.999), (-0.001, 0.001), (89.99, 5.0), (-89.99, -5.0), (86.9, 100.0), (87.2, -100.0),
+                       (87.0, 100.0), (-87.0, -100.0), (87.0, -179.9), (-87.0, 0.1)):
         for par in (0, 1):
             for sfc in (False, True):
                 for oy in (-0.999, 0.999):
